@@ -16,6 +16,8 @@
 //!   explore.server  the same bytes against a real server (`RunConfig::execute`); observed: the panic
 //!                   hook and `shutdown::Manager::get_connecions()` returning to its idle value
 //!   explore.file    generated file contents (`!> ...` lines) and template files, served over loopback
+//!   tmpl.render     a `!> tmpl` page and its template file through `handle_cache`: the rendered body (compared with
+//!                   Model/Templates.v)
 //!   explore.date    `If-Modified-Since` through the REAL `kvarn::handle_cache` on a warmed cache
 //!   ims.decide      the same, reporting 200 / 304 (compared with Model/Ims.v)
 //!   stream.window   `stream_body()`: announced `content-length`, the bytes really sent, and the
@@ -569,6 +571,61 @@ fn explore_file(x: &X) -> X {
     out
 }
 
+/// compared: input (L (B body) (L [template file])) -> Ok (B rendered body).  The page `!> tmpl <T>` + LF + body is written to
+/// the fixture, `<T>` to the template directory (or not at all), and requested through `kvarn::handle_cache`; the answer's
+/// identity body is what the template engine made of it.
+fn tmpl_render(x: &X) -> X {
+    static N: AtomicUsize = AtomicUsize::new(0);
+    let l = match x.as_l() {
+        Some(l) if l.len() == 2 => l,
+        _ => return X::bad(),
+    };
+    let (Some(body), Some(tfile)) = (l[0].as_b(), l[1].as_opt()) else { return X::bad() };
+    let tfile = match tfile {
+        Some(t) => match t.as_b() {
+            Some(b) => Some(b),
+            None => return X::bad(),
+        },
+        None => None,
+    };
+    install_hook();
+    fixture_files();
+    let n = N.fetch_add(1, Ordering::SeqCst);
+    let stem = format!("r{}-{n}", std::process::id());
+    let tname = format!("{stem}.html");
+    let mut page = format!("!> tmpl {tname}\n").into_bytes();
+    page.extend_from_slice(body);
+    put(&format!("public/gen/{stem}.html"), &page);
+    if let Some(t) = tfile {
+        put(&format!("templates/{tname}"), t);
+    }
+    let coll = collection();
+    let before = PANICS.load(Ordering::SeqCst);
+    let uri = format!("http://localhost/gen/{stem}.html");
+    let r = rt().block_on(async move {
+        tokio::spawn(async move {
+            let host = coll.get_host("localhost").expect("host");
+            let mut req = Request::builder()
+                .method(Method::GET)
+                .uri(uri)
+                .body(kvarn::application::Body::Bytes(Bytes::new().into()))
+                .expect("request");
+            let addr = SocketAddr::new(IpAddr::V4(net::Ipv4Addr::LOCALHOST), 4000);
+            let reply = kvarn::handle_cache(&mut req, addr, host).await;
+            (reply.response.status().as_u16(), reply.identity_body)
+        })
+        .await
+    });
+    let _ = std::fs::remove_file(format!("{}public/gen/{stem}.html", fixture_dir()));
+    let _ = std::fs::remove_file(format!("{}templates/{tname}", fixture_dir()));
+    match r {
+        Err(_) => X::panic(),
+        Ok(_) if PANICS.load(Ordering::SeqCst) != before => X::panic(),
+        Ok((200, body)) => X::ok(X::b(&body[..])),
+        Ok((status, _)) => X::L(vec![X::N(91), X::n(status)]),
+    }
+}
+
 // ----------------------------------------------------------------------------------------------------------------
 // If-Modified-Since through the real handle_cache, on a cache hit
 // ----------------------------------------------------------------------------------------------------------------
@@ -908,6 +965,7 @@ pub fn dispatch(comp: &str, x: &X) -> Option<X> {
         "explore.server" => explore_server(x),
         "explore.file" => explore_file(x),
         "explore.date" => explore_date(x),
+        "tmpl.render" => tmpl_render(x),
         "ims.decide" => ims_decide(x),
         "stream.window" => stream_window(x),
         "c02.path" => c02_path(x),
